@@ -10,6 +10,7 @@ EXTENDS MetricsSync
 T_d   == <<"delta">>
 T_c   == <<"cum">>
 T_dc  == <<"delta", "cum">>
+T_cd  == <<"cum", "delta">>
 T_dd  == <<"delta", "delta">>
 T_cc  == <<"cum", "cum">>
 T_ddc == <<"delta", "delta", "cum">>
